@@ -460,6 +460,23 @@ func c19Generic(eng *c19Engine, c Case, res *Result) {
 	if exp == "unmod" {
 		res.Unmodelled++
 	}
+	// (a') the same numbers held in other Go number types: the laws hold alike
+	if v2 := c19OtherKinds(v); v2 != nil && (f == "sort" || f == "reverse" || f == "first" || f == "last" || f == "length" || f == "join" || f == "slice" || f == "merge") {
+		res.Evaluations++
+		res.Hist["other-number-kinds"]++
+		out2, class2, detail2 := c19Call(f, v2, args)
+		msg := ""
+		if class2 == "panic" {
+			msg = "the filter panicked: " + detail2
+		} else if class2 == "ok" {
+			msg = c19Law(f, v2, args, out2, c)
+		} else if class == "ok" {
+			msg = "fails on the same numbers held in other Go number types: " + detail2
+		}
+		if msg != "" {
+			c19Add(res, Finding{Kind: "oracle", Where: f + "/law (int32, int64, uint8, float32 elements)", Case: c, Expected: exp, Observed: class2, Detail: msg})
+		}
+	}
 
 	// (b) through a template
 	proj := c.str("proj")
@@ -511,7 +528,49 @@ func c19IsNumber(x interface{}) (float64, bool) {
 	case float64:
 		return n, true
 	}
+	rv := reflect.ValueOf(x)
+	switch rv.Kind() {
+	case reflect.Int8, reflect.Int16, reflect.Int32:
+		return float64(rv.Int()), true
+	case reflect.Uint, reflect.Uint8, reflect.Uint16, reflect.Uint32, reflect.Uint64:
+		return float64(rv.Uint()), true
+	case reflect.Float32:
+		return rv.Float(), true
+	}
 	return 0, false
+}
+
+// c19OtherKinds: the same numbers in other Go number types (a list that came from typed data, from JSON decoders with
+// UseNumber off, from database drivers ...); nil when v is not an untyped list of ints
+func c19OtherKinds(v interface{}) []interface{} {
+	xs, ok := v.([]interface{})
+	if !ok || len(xs) == 0 {
+		return nil
+	}
+	out := make([]interface{}, len(xs))
+	for i, x := range xs {
+		n, ok := x.(int)
+		if !ok {
+			return nil
+		}
+		switch i % 5 {
+		case 0:
+			out[i] = int32(n)
+		case 1:
+			out[i] = int64(n)
+		case 2:
+			if n >= 0 && n < 256 {
+				out[i] = uint8(n)
+			} else {
+				out[i] = int16(n)
+			}
+		case 3:
+			out[i] = float32(n)
+		default:
+			out[i] = n
+		}
+	}
+	return out
 }
 
 func c19Elems(v interface{}) ([]interface{}, bool) {
